@@ -12,6 +12,7 @@ import vcheck as V
 # delivered after it was mined, coinbase deposits) are part of the ordinary generator.
 PROBES = {
     "stale-pending:foreign-input": "foreign",
+    "stale-pending:unseen-parent": "unseen",
 }
 
 
@@ -52,17 +53,27 @@ class History:
         self.owned = set()
         self.blocks = {}    # bid -> [txid]
         self.spenders = {}  # (tx, vout) -> set(txid)
+        self.prev = {}      # bid -> previous bid
+        self.shown = set()  # transactions delivered to the wallet or contained in a block of a chain whose tip it accepted
         cur = None
         curb = None
         for l in lines:
             f = l.split()
             if not f:
                 continue
+            if f[0] == "U":
+                self.shown.add(f[1])
+            elif f[0] == "P" and f[2] == "ok":
+                b = f[1]
+                while b in self.blocks and b not in ("0",):
+                    self.shown.update(self.blocks[b])
+                    b = self.prev.get(b, "0")
             if f[0] == "A":
                 self.owned.add(f[1])
             elif f[0] == "B":
                 curb = f[1]
                 self.blocks[curb] = []
+                self.prev[curb] = f[2]
             elif f[0] in ("T", "D"):
                 cur = f[1]
                 self.tx[cur] = [f[0] == "T" and f[2] == "1", [], []]
@@ -113,12 +124,16 @@ class History:
                 if not parent_on:
                     r = dead_cause(op[0])
                     if r:
+                        if op[0] not in self.shown:
+                            return "unseen"      # the wallet was never shown the parent transaction
                         # the dependency itself runs over this output: registered only when it pays the wallet
-                        return r if self.out_owned(op) else "foreign"
+                        return r if (self.out_owned(op) or r == "unseen") else "foreign"
             return None
         c = dead_cause(tid)
         if c == "foreign":
             return "stale-pending:foreign-input"
+        if c == "unseen":
+            return "stale-pending:unseen-parent"
         return None
 
     def conflict_pair_on(self, op):
